@@ -954,7 +954,10 @@ func genParserCap(seed int64, n int, tier string) []Script {
 		ops := []map[string]any{
 			{"op": "write", "p": B2(first)},
 			{"op": "parse", "flags": 0},
-			{"op": "reset", "data": B2(data), "cap": pickInt(r, 0, 0, 1, 3, 6, 7, 8)},
+			// spare capacity of the caller's slice: around the 7-byte margin, and
+			// far beyond BufferSize+7 (the array is adopted, BufferSize must
+			// still bound every later Write and ReadFrom)
+			{"op": "reset", "data": B2(data), "cap": pickInt(r, 0, 0, 1, 3, 6, 7, 8, B+8, 2*B+64, 4*B)},
 		}
 		for k := 0; k < 12; k++ {
 			ops = append(ops, map[string]any{"op": "parse", "flags": r.Intn(4) / 3})
@@ -967,7 +970,10 @@ func genParserCap(seed int64, n int, tier string) []Script {
 			for j := range rest {
 				rest[j] = pat[j%len(pat)]
 			}
+			// a Write straight after the ReadFrom that filled the buffer: it
+			// has to be refused (ErrFullBuffer), whatever the array's capacity
 			ops = append(ops, map[string]any{"op": "readfrom", "src": B2(rest), "calls": []any{}},
+				map[string]any{"op": "write", "p": B2(first)},
 				map[string]any{"op": "parse", "flags": 0}, map[string]any{"op": "shrink"},
 				map[string]any{"op": "readfrom", "src": B2(rest[:B/2]), "calls": []any{[]any{7, ""}, []any{1000, ""}}})
 			for k := 0; k < 8; k++ {
